@@ -6,7 +6,7 @@
 import Rigo.Block
 open Std
 
-namespace Rigo.C14
+namespace Rigo.C14L
 
 open Delegatee
 
@@ -222,4 +222,4 @@ theorem mem_pruned (hs : List Int) (hinc : Increasing hs) (h0 h1 : Int) (x : Int
   · have := hlow x h; omega
   · exact h
 
-end Rigo.C14
+end Rigo.C14L
